@@ -137,6 +137,9 @@ func (s *sim) eligible(d *txDef, view map[[2]int]gUtxo) bool {
 	if s.mined[d.id] || len(d.ins) == 0 {
 		return false
 	}
+	if d.tx != nil && d.tx.MsgTx().HasWitness() {
+		return false // blocks of the harness carry no witness commitment; witness transactions stay pooled
+	}
 	seen := map[[2]int]bool{}
 	for _, in := range d.ins {
 		k := [2]int{in.txid, in.idx}
@@ -441,6 +444,13 @@ func (s *sim) newTx(o txOpts) *txDef {
 		d.outs = append(d.outs, outDef{value: 0, kind: 'p'})
 	}
 	switch o.special {
+	case "witout": // P2WSH outputs whose spend carries a few hundred witness bytes (raw size >> virtual size)
+		for i := range d.outs {
+			if s.r.Chance(70, 100) {
+				d.outs[i].kind = 'w'
+				d.outs[i].pad = int(s.r.Pick(80, 200, 300, 400, 500))
+			}
+		}
 	case "nonstdout": // the non-standard output at any position
 		d.outs[s.r.Intn(len(d.outs))].kind = 't'
 	case "nulldata":
@@ -607,7 +617,7 @@ func (s *sim) newTx(o txOpts) *txDef {
 		s.spentBy[k] = append(s.spentBy[k], d.id)
 	}
 	for i, ot := range d.outs {
-		if ot.kind == 'p' || ot.kind == 't' {
+		if ot.kind == 'p' || ot.kind == 't' || ot.kind == 'w' {
 			s.outs = append(s.outs, gOut{d.id, i, ot.value, ot.kind, false, 0, s.grp})
 		}
 	}
@@ -684,7 +694,7 @@ func (s *sim) randomOpts() txOpts {
 	}
 	if r.Chance(22, 100) {
 		sp := []string{"ghost", "badidx", "dupin", "badscript", "coinbase", "ver3", "ver2", "nonstdout", "nulldata",
-			"nulldata2", "big", "big49k", "noouts", "lockh", "lockt", "lockh", "lockt", "overspend", "dust", "tiny", "tiny2", "tiny2", "bip68", "bip68", "bip68", "bip68", "noins", "hetero", "hetero", "hetero", "fan"}
+			"nulldata2", "big", "big49k", "noouts", "lockh", "lockt", "lockh", "lockt", "overspend", "dust", "tiny", "tiny2", "tiny2", "bip68", "bip68", "bip68", "bip68", "noins", "hetero", "hetero", "hetero", "fan", "witout", "witout", "witout", "witout"}
 		o.special = sp[r.Intn(len(sp))]
 		if o.special == "hetero" {
 			o.nIn = 3 + r.Intn(2)
@@ -766,6 +776,166 @@ func (s *sim) txFrom(ins [][2]int, ghost bool, nOut int, fee int64) *txDef {
 		s.outs = append(s.outs, gOut{d.id, i, ot.value, ot.kind, false, 0, s.grp})
 	}
 	return d
+}
+
+// txCustom builds a definition from explicit inputs, one sequence for all of them, and explicit output kinds.
+func (s *sim) txCustom(ins [][2]int, seq uint32, outs []outDef, fee int64) *txDef {
+	d := &txDef{lock: "0", ver: 1, id: s.nextID}
+	var total int64
+	for _, in := range ins {
+		v, _, ok := s.u.outInfo(in[0], in[1])
+		if !ok {
+			return nil
+		}
+		total += v
+		d.ins = append(d.ins, inDef{in[0], in[1], seq, 'g', 0})
+	}
+	rest := total - fee
+	if rest < int64(len(outs))*1000 {
+		return nil
+	}
+	for i, o := range outs {
+		o.value = rest / int64(len(outs))
+		if i == 0 {
+			o.value = rest - (rest/int64(len(outs)))*int64(len(outs)-1)
+		}
+		d.outs = append(d.outs, o)
+	}
+	s.u.defs[d.id] = d
+	s.u.build(d)
+	if s.seenHash[*d.tx.Hash()] {
+		delete(s.u.defs, d.id)
+		return nil
+	}
+	s.seenHash[*d.tx.Hash()] = true
+	d.fee, d.vsize, d.ssize, d.size, d.bits = s.u.facts(d, 2, s.pol.minRelayFee)
+	s.u.setPrioFacts(d)
+	s.nextID = d.id + 1
+	s.defs = append(s.defs, d)
+	s.defGrp[d.id] = s.grp
+	for _, in := range d.ins {
+		k := [2]int{in.txid, in.idx}
+		s.spentBy[k] = append(s.spentBy[k], d.id)
+	}
+	for i, ot := range d.outs {
+		s.outs = append(s.outs, gOut{d.id, i, ot.value, ot.kind, false, 0, s.grp})
+	}
+	return d
+}
+
+// setFee re-derives the output values of a definition built by txCustom for another fee (sizes do not change).
+func (s *sim) setFee(d *txDef, fee int64) {
+	var total int64
+	for _, in := range d.ins {
+		v, _, _ := s.u.outInfo(in.txid, in.idx)
+		total += v
+	}
+	rest := total - fee
+	n := int64(len(d.outs))
+	for i := range d.outs {
+		d.outs[i].value = rest / n
+		if i == 0 {
+			d.outs[i].value = rest - (rest/n)*(n-1)
+		}
+	}
+	delete(s.u.hashID, *d.tx.Hash())
+	for tries := 0; tries < 20; tries++ {
+		s.u.build(d)
+		clash := false
+		for _, o := range s.defs {
+			if o.id != d.id && o.tx != nil && *o.tx.Hash() == *d.tx.Hash() {
+				clash = true // one id must stand for one txid (the txid does not cover the witness)
+			}
+		}
+		if !clash {
+			break
+		}
+		d.outs[0].value-- // one satoshi more fee
+	}
+	for _, o := range s.defs {
+		if o.id != d.id && o.tx != nil {
+			s.u.hashID[*o.tx.Hash()] = o.id
+		}
+	}
+	s.u.hashID[*d.tx.Hash()] = d.id
+	s.seenHash[*d.tx.Hash()] = true
+	d.fee, d.vsize, d.ssize, d.size, d.bits = s.u.facts(d, 2, s.pol.minRelayFee)
+	s.u.setPrioFacts(d)
+	for i, ot := range d.outs {
+		for j := range s.outs {
+			if s.outs[j].txid == d.id && s.outs[j].idx == i {
+				s.outs[j].value = ot.value
+			}
+		}
+	}
+}
+
+// witnessRBF: a signalling pooled transaction with a large witness (raw size a multiple of its virtual size) and a
+// conflicting replacement whose fee rate is placed around BOTH rates of the original — fee*1000/vsize (the one the
+// replacement rule is about) and fee*1000/rawSize — and around the absolute-fee bound.
+func (s *sim) witnessRBF() {
+	r := s.r
+	free := s.unspentOuts(false)
+	if len(free) < 2 {
+		return
+	}
+	a, extra := free[len(free)-1], free[len(free)-2]
+	pad := int(r.Pick(300, 400, 500))
+	A := s.txCustom([][2]int{{a.txid, a.idx}}, 0xfffffffd, []outDef{{kind: 'w', pad: pad}, {kind: 'w', pad: pad}}, 5000)
+	if A == nil {
+		return
+	}
+	s.submit(A)
+	B := s.txCustom([][2]int{{A.id, 0}}, uint32(r.Pick(0xfffffffd, 0xffffffff)), []outDef{{kind: 'p'}}, r.Pick(1500, 2000, 3000, 6000))
+	if B == nil {
+		return
+	}
+	s.submit(B)
+	cins := [][2]int{{A.id, 0}}
+	switch r.Intn(3) {
+	case 0:
+		cins = append(cins, [2]int{extra.txid, extra.idx}) // a second, witness-free input: larger virtual size
+	case 1:
+		cins = append(cins, [2]int{A.id, 1}) // a second witness input
+	}
+	couts := make([]outDef, 1+r.Intn(4))
+	for i := range couts {
+		couts[i].kind = 'p'
+	}
+	C := s.txCustom(cins, 0xffffffff, couts, 100000)
+	if C == nil {
+		return
+	}
+	vr := B.fee * 1000 / B.vsize // the rate the rule is about
+	rr := B.fee * 1000 / B.size  // what a raw-size computation would give
+	abs := B.fee + s.minFee(C.vsize)
+	var fee int64
+	switch r.Intn(7) {
+	case 0:
+		fee = abs
+	case 1:
+		fee = abs - 1
+	case 2: // exactly the original's rate: must be rejected
+		fee = (vr*C.vsize + 999) / 1000
+	case 3: // just above it
+		fee = (vr+1)*C.vsize/1000 + 1
+	case 4, 5: // between the raw-size rate and the virtual-size rate, absolute bound met: must be rejected
+		fee = ((rr+vr)/2*C.vsize + 999) / 1000
+		if fee < abs {
+			fee = abs
+		}
+	default:
+		fee = (rr*C.vsize+999)/1000 + int64(r.Intn(3))
+	}
+	if fee < 0 {
+		fee = 0
+	}
+	s.setFee(C, fee)
+	s.ops = append(s.ops, fmt.Sprintf("K:%d", C.id))
+	s.submit(C)
+	if r.Bool() {
+		s.ops = append(s.ops, "T")
+	}
 }
 
 // minedOrphans: a chain P -> T -> T2 where T (and maybe T2) sit in the orphan pool and the whole chain is then
@@ -953,8 +1123,10 @@ func (s *sim) scenarioBody(n int, withBlocks bool) {
 				s.ops = append(s.ops, fmt.Sprintf("X:%d", d.id))
 			}
 		case x < 72:
-			if s.pol.maxOrphans >= 5 {
+			if s.pol.maxOrphans >= 5 && r.Bool() {
 				s.orphanDoubleSpends()
+			} else if s.grp < 0 {
+				s.witnessRBF()
 			}
 		case x < 74:
 			tag := r.Intn(3)
@@ -1095,6 +1267,20 @@ func (P) Generate(g0 *core.Gen) {
 			s.ops = append(s.ops, "T")
 			g.Case("rbf-limit", true, s.line())
 		}
+	}
+	for i := 0; i < g.N(60, 600); i++ {
+		r := g.R.Fork()
+		pol := randomPolicy(r)
+		pol.maxOrphans = 100
+		pol.maxOrphanSize = 100000
+		pol.rejectReplacement = false
+		s := newSim(r, pol, 1)
+		s.baseChain(4 + r.Intn(3))
+		for k := 0; k < 1+r.Intn(2); k++ {
+			s.witnessRBF()
+		}
+		s.ops = append(s.ops, "T")
+		g.Case("witness-rbf", len(s.defs) >= 3, s.line())
 	}
 	for i := 0; i < g.N(30, 300); i++ {
 		r := g.R.Fork()
